@@ -107,6 +107,10 @@ def cfg_phasor(tier, seed):
         out.append({'shape': [0, 0], 'amp': 'scalar', 'opd': 'scalar', 'mask': 'none', 'segs': [[]], 'cls': 'Plane', 'inc': 'after-offcentre', 'default': True, 'corner': corner})
         for cls in ('Plane', 'Pupil'):
             out.append({'shape': [3, 4], 'amp': 'scalar', 'opd': 'scalar', 'mask': 'none', 'segs': [[]], 'cls': cls, 'inc': 'after-offcentre', 'corner': corner})
+    # planes produced by rescale() from an off-centre / segmented aperture: the phasor sits where the rescaled mask is
+    for segs in ([[[0, 2], [0, 3], [1, 3]]], [[[0, 0], [1, 0]], [[1, 3], [2, 3]]]):
+        for sc in (2, '3/2'):
+            out.append({'shape': [3, 4], 'amp': 'array', 'opd': 'array', 'mask': '2d' if len(segs) == 1 else '3d', 'segs': segs, 'cls': 'Pupil', 'inc': 'default', 'rescaled': sc})
     out.append({'shape': [3, 3], 'amp': 'scalar', 'opd': 'array', 'mask': '2d', 'segs': [[[0, 0], [1, 1]]], 'cls': 'Pupil', 'inc': 'default'})
     out.append({'shape': [3, 3], 'amp': 'scalar', 'opd': 'scalar', 'mask': '2d', 'segs': [[[0, 1], [1, 1], [1, 2]]], 'cls': 'Pupil', 'inc': 'default'})
     out.append({'shape': [2, 3], 'amp': 'array', 'opd': 'scalar', 'mask': '3d', 'segs': [[[0, 0], [1, 2]], [[0, 1], [1, 1]]], 'cls': 'Plane', 'inc': 'after-plane'})
@@ -190,6 +194,22 @@ def run_phasor(W, cfg):
             plane = lt.Image(**kw)
         else:
             plane = lt.Plane(**kw)
+    if cfg.get('rescaled') and not default:
+        from fractions import Fraction as _Fr
+        W.float_constants()
+        sc = _Fr(str(cfg['rescaled']))
+        plane._pixelscale = (1.0, 1.0)
+        plane = plane.rescale(W.const(sc) if W.sym else float(sc))
+        out = w * plane
+        W.ob('wavelength', out.wavelength, lam)
+        qa, qo, qm = plane.amplitude, plane.opd, W.concrete(plane.mask)
+        gm = qm if qm.ndim == 2 else (qm.sum(axis=0) > 0).astype(int)
+        R2, C2 = gm.shape
+        want = [[optics.phasor(W, qa[r, c], qo[r, c], lam) if gm[r, c] else 0 for c in range(C2)] for r in range(R2)]
+        got = out.field
+        W.ob_true('rescaled plane: field has the rescaled shape', tuple(got.shape) == (R2, C2))
+        W.ob('rescaled plane: field = its own amplitude * e(opd/lambda) on its own mask, where that mask is', got, W.array(want))
+        return
     out = w * plane
     # ---- reference
     W.ob('wavelength', out.wavelength, lam)
